@@ -29,9 +29,11 @@ type dynSlot struct {
 var effNames = map[conv.Effect]string{conv.EffNone: "", conv.EffReplaceOther: "+replaceOther", conv.EffDeleteOther: "+deleteOther",
 	conv.EffUndefOther: "+undefOther", conv.EffAccessorOther: "+accessorOther", conv.EffReplaceSelf: "+replaceSelf", conv.EffDeleteSelf: "+deleteSelf"}
 
-// dynSlots enumerates the slot shapes for one method name. withEffects selects
-// the shapes whose function body mutates the object.
-func dynSlots(method string, date bool, withEffects bool) []dynSlot {
+// dynSlots enumerates the slot shapes for one method name. withEffects selects the
+// shapes whose function body mutates the object; reduced is the quick-tier subset
+// used for the non-plain carriers; protoOK says whether the carrier's prototype may
+// carry a slot (not for arguments objects, whose prototype is Object.prototype itself).
+func dynSlots(method string, withEffects, reduced, protoOK bool) []dynSlot {
 	pv := conv.Num(7)
 	if method == "toString" {
 		pv = conv.Str("12")
@@ -42,10 +44,14 @@ func dynSlots(method string, date bool, withEffects bool) []dynSlot {
 		proto, acc bool
 	}
 	accesses := []access{{"data", false, false}, {"getter", false, true}, {"protodata", true, false}, {"protogetter", true, true}}
-	if date {
-		accesses = accesses[:2] // a Date's prototype is Date.prototype (built-in conversions are implementation-defined text)
+	if !withEffects {
+		// "default": no slot anywhere, the built-in conversion method of the carrier's class runs
+		out = append(out, dynSlot{name: "default"})
 	}
 	for _, a := range accesses {
+		if a.proto && !protoOK {
+			continue
+		}
 		label := ""
 		if a.proto {
 			label = "@proto"
@@ -56,6 +62,9 @@ func dynSlots(method string, date bool, withEffects bool) []dynSlot {
 		}
 		if !withEffects {
 			mk("prim", conv.Method{R: conv.RetPrim, V: pv})
+			if reduced && a.acc {
+				continue
+			}
 			mk("obj", conv.Method{R: conv.RetObj})
 			mk("throw", conv.Method{R: conv.Throws})
 			mk("undefined", conv.Method{R: conv.Absent})
@@ -65,11 +74,14 @@ func dynSlots(method string, date bool, withEffects bool) []dynSlot {
 			}
 			continue
 		}
-		effs := []conv.Effect{conv.EffReplaceOther, conv.EffDeleteOther, conv.EffUndefOther, conv.EffAccessorOther, conv.EffReplaceSelf, conv.EffDeleteSelf}
-		if date {
-			effs = []conv.Effect{conv.EffReplaceOther, conv.EffUndefOther, conv.EffAccessorOther, conv.EffReplaceSelf}
+		if reduced {
+			if !a.proto && !a.acc {
+				mk("obj"+effNames[conv.EffDeleteOther], conv.Method{R: conv.RetObj, Eff: conv.EffDeleteOther})
+				mk("obj"+effNames[conv.EffReplaceOther], conv.Method{R: conv.RetObj, Eff: conv.EffReplaceOther})
+			}
+			continue
 		}
-		for _, e := range effs {
+		for _, e := range []conv.Effect{conv.EffReplaceOther, conv.EffDeleteOther, conv.EffUndefOther, conv.EffAccessorOther, conv.EffReplaceSelf, conv.EffDeleteSelf} {
 			mk("obj"+effNames[e], conv.Method{R: conv.RetObj, Eff: e})
 			mk("prim"+effNames[e], conv.Method{R: conv.RetPrim, V: pv, Eff: e})
 		}
@@ -77,14 +89,48 @@ func dynSlots(method string, date bool, withEffects bool) []dynSlot {
 	return out
 }
 
+// dynCarrier is the kind of object that carries the conversion methods.
+type dynCarrier struct {
+	name    string
+	class   string
+	ctor    string // creates o; may use P (the private prototype of the plain carriers)
+	proto   string // expression of the object's prototype ("" = no prototype slots); shared built-in prototypes are saved and restored
+	shared  bool
+	prim    *conv.Value // built-in valueOf result (nil: the object itself)
+	str     string      // built-in toString result
+	unknown bool        // built-in toString is implementation-defined text: cases that reach it are skipped
+	none    bool        // no built-in conversion methods at all (Object.create(null) chain)
+}
+
+func dynCarriers() []dynCarrier {
+	n1, sx, bf, d0 := conv.Num(1), conv.Str("x"), conv.Boolean(false), conv.Num(0)
+	return []dynCarrier{
+		{name: "Object", class: "Object", ctor: "Object.create(P)", proto: "P", str: "[object Object]"},
+		{name: "Null", class: "Object", ctor: "Object.create(P)", proto: "P", none: true},
+		{name: "Array", class: "Array", ctor: "[5]", proto: "Array.prototype", shared: true, str: "5"},
+		{name: "Function", class: "Function", ctor: "function(){}", proto: "Function.prototype", shared: true, unknown: true},
+		{name: "Date", class: "Date", ctor: "new Date(0)", proto: "Date.prototype", shared: true, prim: &d0, unknown: true},
+		{name: "Number", class: "Number", ctor: "new Number(1)", proto: "Number.prototype", shared: true, prim: &n1, str: "1"},
+		{name: "String", class: "String", ctor: "new String(\"x\")", proto: "String.prototype", shared: true, prim: &sx, str: "x"},
+		{name: "Boolean", class: "Boolean", ctor: "new Boolean(false)", proto: "Boolean.prototype", shared: true, prim: &bf, str: "false"},
+		{name: "RegExp", class: "RegExp", ctor: "/a/", proto: "RegExp.prototype", shared: true, str: "/a/"},
+		{name: "Error", class: "Error", ctor: "new Error(\"m\")", proto: "Error.prototype", shared: true, str: "Error: m"},
+		{name: "Arguments", class: "Arguments", ctor: "(function(){ return arguments })(1)", str: "[object Arguments]"},
+	}
+}
+
 type dynSpec struct {
 	name   string
-	class  string
+	car    *dynCarrier
 	vo, ts dynSlot
 }
 
+// restores reports whether the case installs a slot on a shared built-in prototype.
+func (s *dynSpec) restores() bool { return s.car.shared && (s.vo.proto || s.ts.proto) }
+
 func (s *dynSpec) model(id string) *conv.Obj {
-	o := &conv.Obj{ID: id, Class: s.class, BuiltinStr: "[object Object]", Names: map[string]bool{"__id": true}}
+	o := &conv.Obj{ID: id, Class: s.car.class, Prim: s.car.prim, BuiltinStr: s.car.str, UnknownStr: s.car.unknown, NoBuiltin: s.car.none,
+		Names: map[string]bool{"__id": true}}
 	if s.vo.proto {
 		o.ProtoValueOf = s.vo.m
 	} else {
@@ -127,10 +173,16 @@ func effectJS(id, name string, e conv.Effect) string {
 	return ""
 }
 
-func slotJS(id, name string, sl dynSlot) string {
-	target := "o"
+func slotJS(id, name string, sl dynSlot, car *dynCarrier) string {
+	if sl.name == "default" {
+		return ""
+	}
+	target, save := "o", ""
 	if sl.proto {
-		target = "P"
+		target = "Q"
+		if car.shared {
+			save = fmt.Sprintf("__save(Q, %q);", name)
+		}
 	}
 	m := sl.m
 	var val string
@@ -152,7 +204,7 @@ func slotJS(id, name string, sl dynSlot) string {
 		val = "function(){ " + body + " }"
 	}
 	if !m.Acc {
-		return fmt.Sprintf("Object.defineProperty(%s, %q, {value: %s, writable: true, enumerable: true, configurable: true});", target, name, val)
+		return save + fmt.Sprintf("Object.defineProperty(%s, %q, {value: %s, writable: true, enumerable: true, configurable: true});", target, name, val)
 	}
 	get := fmt.Sprintf("__log(%q); ", id+".get "+name+m.Label)
 	if m.GetThrows {
@@ -160,33 +212,48 @@ func slotJS(id, name string, sl dynSlot) string {
 	} else {
 		get += "return " + val
 	}
-	return fmt.Sprintf("Object.defineProperty(%s, %q, {get: function(){ %s }, enumerable: true, configurable: true});", target, name, get)
+	return save + fmt.Sprintf("Object.defineProperty(%s, %q, {get: function(){ %s }, enumerable: true, configurable: true});", target, name, get)
 }
 
 func (s *dynSpec) js(id string) string {
 	var sb strings.Builder
-	sb.WriteString("(function(){ var P = {}; var o = ")
-	if s.class == "Date" {
-		sb.WriteString("new Date(0);")
+	sb.WriteString("(function(){ var P = ")
+	if s.car.none {
+		sb.WriteString("Object.create(null);")
 	} else {
-		sb.WriteString("Object.create(P);")
+		sb.WriteString("{};")
+	}
+	sb.WriteString(" var o = " + s.car.ctor + ";")
+	if s.car.proto != "" {
+		sb.WriteString(" var Q = " + s.car.proto + ";")
 	}
 	fmt.Fprintf(&sb, "o.__id = %q;", id)
-	sb.WriteString(slotJS(id, "valueOf", s.vo))
-	sb.WriteString(slotJS(id, "toString", s.ts))
+	sb.WriteString(slotJS(id, "valueOf", s.vo, s.car))
+	sb.WriteString(slotJS(id, "toString", s.ts, s.car))
 	sb.WriteString("return o })()")
 	return sb.String()
 }
 
-// dynSpecs: (all plain shapes)^2, plus every mutating shape of one method against every plain shape of the other.
-func dynSpecs() []dynSpec {
+// dynPrelude: save/restore of properties of shared built-in prototypes.
+const dynPrelude = `var __saved = [];
+function __save(T, n){ __saved.push([T, n, Object.getOwnPropertyDescriptor(T, n)]) }
+function __restore(){ while (__saved.length) { var s = __saved.pop(); if (s[2]) Object.defineProperty(s[0], s[1], s[2]); else delete s[0][s[1]] } return "ok" }
+`
+
+// dynSpecs: per carrier (all plain shapes)^2, plus every mutating shape of one method
+// against every plain shape of the other. The quick tier enumerates the plain-object
+// carrier in full and the other carriers with the reduced shape set.
+func dynSpecs(thorough bool) []dynSpec {
 	var out []dynSpec
-	for _, class := range []string{"Object", "Date"} {
-		date := class == "Date"
-		voPlain, tsPlain := dynSlots("valueOf", date, false), dynSlots("toString", date, false)
-		voEff, tsEff := dynSlots("valueOf", date, true), dynSlots("toString", date, true)
+	cars := dynCarriers()
+	for ci := range cars {
+		car := &cars[ci]
+		reduced := !thorough && car.name != "Object"
+		protoOK := car.proto != ""
+		voPlain, tsPlain := dynSlots("valueOf", false, reduced, protoOK), dynSlots("toString", false, reduced, protoOK)
+		voEff, tsEff := dynSlots("valueOf", true, reduced, protoOK), dynSlots("toString", true, reduced, protoOK)
 		add := func(vo, ts dynSlot) {
-			out = append(out, dynSpec{name: "dyn/" + class + "/" + vo.name + "/" + ts.name, class: class, vo: vo, ts: ts})
+			out = append(out, dynSpec{name: "dyn/" + car.name + "/" + vo.name + "/" + ts.name, car: car, vo: vo, ts: ts})
 		}
 		for _, vo := range voPlain {
 			for _, ts := range tsPlain {
@@ -208,8 +275,9 @@ func dynSpecs() []dynSpec {
 }
 
 func runToPrimDyn(r *engine.Run, h *harness, plainIdx int) {
-	specs := dynSpecs()
+	specs := dynSpecs(r.Thorough())
 	r.Bound("dynamic_objects", fmt.Sprint(len(specs)))
+	r.Bound("carriers", fmt.Sprint(len(dynCarriers())))
 	for si := range specs {
 		spec := &specs[si]
 		if r.Expired() {
@@ -223,25 +291,35 @@ func runToPrimDyn(r *engine.Run, h *harness, plainIdx int) {
 				continue
 			}
 			r.Tree(1, 1)
+			pm := h.models["b"][plainIdx]
+			unknown := false
+			eval := func(q conv.Quirks) string {
+				c := &conv.Ctx{Q: q}
+				v, th := pc.f(c, conv.ObjectOf(spec.model("a")), pm)
+				unknown = c.Unknown
+				return expected(v, th, c)
+			}
+			exp := eval(conv.Quirks{})
+			if unknown {
+				r.Skip() // the conversion reaches implementation-defined text (Function/Date toString)
+				continue
+			}
 			// a fresh object per case: the methods mutate it
 			res := ox.Run(h.vm, spec.js("a"))
 			if res.Panicked || res.Err != nil {
 				r.Mismatch(engine.Mismatch{Key: key, Input: spec.js("a"), Expected: "object is created", Observed: fmt.Sprintf("%v %v", res.Err, res.PanicVal)})
-				if res.Panicked {
-					h.rebuild()
-				}
+				h.rebuild()
 				continue
 			}
 			var ar otto.Value = res.Value
-			pm := h.models["b"][plainIdx]
-			eval := func(q conv.Quirks) string {
-				c := &conv.Ctx{Q: q}
-				v, th := pc.f(c, conv.ObjectOf(spec.model("a")), pm)
-				return expected(v, th, c)
-			}
-			exp := eval(conv.Quirks{})
 			r.Begin(key)
 			obs := h.call(pc.src, ar, h.real["b"][plainIdx])
+			if spec.restores() {
+				if rr := ox.Run(h.vm, "__restore()"); rr.Panicked || rr.Err != nil {
+					obs.text += " restore failed"
+					obs.panicked = true
+				}
+			}
 			r.End()
 			r.Eval(true)
 			report(r, h, key, fmt.Sprintf("(%s)(%s)", pc.src, spec.name), exp, obs, eval)
